@@ -130,7 +130,19 @@ def vf : P String := do
   if last.isEmpty then return v.render
   -- (i) every returned vector is a genuine one-step backup of the previous returned list (hence achievable: by
   --     `backup_members_le_expectimax` the returned surface is ≤ expectimax at EVERY belief)
-  let v := Id.run do
+  -- In exact mode the Lean checker `checkChain` (soundness: `checkChain_sound_from_zero`) is evaluated first; when it accepts, the
+  -- upper side is certified for all beliefs and the per-vector search below is skipped.
+  let vecLists : List (List Vec) := lists.map (·.map (·.2))
+  let sizesOK := Id.run do
+    let mut ok := true
+    let mut prev : List Vec := [vzero m.S]
+    for cur in vecLists.drop 1 do
+      if backupSize m τ prev > 30000 then ok := false
+      prev := cur
+    return ok
+  let zeroOK := match vecLists.head? with | some [z] => vecEqN m.S z (vzero m.S) | _ => false
+  let certified := sizesOK && zeroOK && checkChain m τ [vzero m.S] (vecLists.drop 1)
+  let v := if certified then { v with tag := v.tag ++ " upper_certified" } else Id.run do
     let mut v := v
     let mut prev : List Vec := [vzero m.S]
     let mut t := 0
